@@ -62,8 +62,18 @@ def ob_queues(ctx, res):
     for file, name in ((BG, "write_bg"), (BB, "write_bed")):
         f2 = ctx.ast.fn(file, name)
         rm = _method_set(f2, "remaining_chroms")
-        if set(rm) - {"reverse", "pop"} or len(rm.get("reverse", [])) != 1 or len(rm.get("pop", [])) != 1 or not (rm["reverse"][0].order < rm["pop"][0].order):
-            res.fail("queues/%s/remaining" % name, f2, "remaining_chroms must be reversed once and then only popped; methods: %s" % sorted(rm))
+        # reversed exactly once - in place (`.reverse()`) or when it is built (`..iter().rev()..collect()`) - and then only popped
+        init_rev = 0
+        for l_ in walk_no_nested_fn(f2.body):
+            pt_ = l_["pat"] if l_.k == "let" else None
+            while pt_ is not None and pt_.k == "p_type":
+                pt_ = pt_["pat"]
+            if pt_ is not None and pt_.k == "p_ident" and pt_["name"] == "remaining_chroms" and l_.get("init") is not None:
+                init_rev = sum(1 for c_ in walk_no_nested_fn(l_["init"]) if c_.k == "mcall" and c_["method"] == "rev")
+        n_rev = len(rm.get("reverse", [])) + init_rev
+        pops_after = rm.get("pop", []) and all(r_.order < rm["pop"][0].order for r_ in rm.get("reverse", []))
+        if set(rm) - {"reverse", "pop"} or n_rev != 1 or len(rm.get("pop", [])) != 1 or not pops_after:
+            res.fail("queues/%s/remaining" % name, f2, "remaining_chroms must be reversed once and then only popped; methods: %s%s" % (sorted(rm), ", reversed when built" if init_rev else ""))
             continue
         snd = sorted(calls(f2.body, method="send"), key=lambda c: c.order)
         if len(snd) != 2 or {up(strip(s["recv"])) for s in snd} != {"handle_snd", "buf_snd"} or staging._loop_of(snd[0]) is not staging._loop_of(snd[1]):
@@ -263,9 +273,9 @@ def ob_writer_siblings(ctx, res):
         else:
             res.ok(ff, "both bedGraph writers query the whole chromosome (0, length) unless restricted")
     # BED
-    st = ctx.ast.fn(BB, "write_bed_singlethreaded")
-    ff = ctx.ast.fn(BB, "file_future")
-    fb = ctx.ast.fn(BB, "write_bed_from_bed")
+    st = ctx.ast.fn(BB, "write_bed_singlethreaded", inline=True)
+    ff = ctx.ast.fn(BB, "file_future", inline=True)
+    fb = ctx.ast.fn(BB, "write_bed_from_bed", inline=True)
     a = [m for m in _emit_macros(st) if m[0].count("{}") <= 4]
     b = _emit_macros(ff)
     c = _emit_macros(fb)
